@@ -618,6 +618,8 @@ def gen_c19(tier, seed):
         d["q"] = q
         d["delta"] = rng.choice([1] if q == 1 else [max(1, q // 10), max(1, q // 3), q])
         d["freq"] = rng.choice([10 ** 12, 10 ** 9, 10 ** 6, 2_400_000_000])
+        if idx % 4 == 3:
+            d["freq"] = 10 ** 9      # these run on the scripted OS clock (1 tick = 1 ns): budgets below are computed for that rate
         # per-iteration cost from far below to far above the precision
         ratio = rng.choice([0.02, 0.05, 0.3, 1, 3, 30, 99, 100, 101, 102, 300, 1000])
         d["cbase"] = max(1, int(q * ratio)) if ratio >= 0.02 else 1
@@ -646,6 +648,16 @@ def gen_c19(tier, seed):
         if entry >= 2 and rng.random() < 0.4:
             d["ic"] = sorted(rng.sample([0, 1, 2, 3], rng.randrange(1, 3)))
         d["gcost"] = rng.choice([0, 3, 10 * q])
+        out.append(line(d))
+    # samples that last 2^32 (2^64) precision units and a little more in the very first tuning round: the multiple of the precision
+    # is a wide number; its low bits alone say "still within 100x"
+    for k, cost in enumerate([2 ** 32 + 2, 3 * 2 ** 32 + 7, 2 ** 32 - 1000, 2 ** 33 + 50, 2 ** 32] + ([2 ** 48 + 1, 5 * 10 ** 9, 2 ** 40] if tier == "thorough" else [])):
+        d = {"id": N + k, "entry": rng.choice([0, 2]), "T": rng.choice([1, 1, 2]), "n": rng.choice([2, 3]), "q": 1, "delta": 1, "freq": rng.choice([10 ** 9, 10 ** 12]),
+             "cbase": cost, "seed": rng.randrange(1 << 20), "fplog": 0, "oshape": "z", "_novos": k % 2 == 0}
+        if d["entry"] == 2:
+            d["ishape"] = "s"
+        if cost == 2 ** 32:
+            d["max"] = 2000 * 10 ** 9 if d["freq"] == 10 ** 9 else 10 ** 9     # an exact multiple would double for ever
         out.append(line(d))
     return out
 
